@@ -53,6 +53,16 @@ def run(rep, tier, seed):
         if tier == "quick" and conf[0] == "fat32-min" and i > 10:
             conf = small512[0]
         scripts.append(sessions.dir_heavy_session(rng, conf, nfiles=rng.range(8, 16)))
+    # volumes exactly at the cluster counts where the FAT width changes (4084|4085, 65524|65525): the width follows from the
+    # count alone, the library and the independent decoder must agree on it (geometry found through the boot-sector hook)
+    for (clusters, start) in ((4084, 4090), (4085, 4090), (65524, 65600), (65525, 65600)):
+        r = vlib.sectors_for_clusters(512, 512, clusters, start)
+        if r is None:
+            continue
+        ts, bits = r
+        conf = ("fat%d-%dclusters" % (bits, clusters), ts * 512, "format 512 %d 512 - %s 2 - - -" % (ts, "-"))
+        for k in range(1 if tier == "quick" else 6):
+            scripts.append(remount_session(rng, conf, 24, 2))
     judged = sessions.run_judged(scripts, flags=("tree",), shards=16)
     remounts = 0
     for jd in judged:
